@@ -14,7 +14,8 @@ def svc_text(services):
 
 def hist_line(case, cmd="hist"):
     label, maxp, services, timed, events = case
-    return "%s %d %s %s" % (cmd, maxp, svc_text(services), " ".join(events))
+    lim = "%d/%d" % tuple(maxp) if isinstance(maxp, (tuple, list)) else "%d" % maxp
+    return "%s %s %s %s" % (cmd, lim, svc_text(services), " ".join(events))
 
 
 def canon_step(tok, drop=(), dead=()):
@@ -69,10 +70,10 @@ def drops_for(events, mtoks):
     """per step: connections whose output is unobservable (processes killed by that tick, per the model)"""
     conn_of_sid, nconn = {}, 0
     for ev in events:
-        if ev == "C":
+        if ev in ("C", "CF"):
             nconn += 1
-        elif ev.startswith("K."):
-            conn_of_sid[int(ev[2:])] = nconn
+        elif ev.startswith("K.") or ev.startswith("KF."):
+            conn_of_sid[int(ev.split(".")[1])] = nconn
             nconn += 1
     res = []
     for ev, t in zip(events, mtoks):
